@@ -67,3 +67,21 @@ claim("C04",
       "after re-import is not decided.",
       _NOTE, "ast rules: taint from parameter to constructor keyword, def-use agreement, dispatch-table lifting",
       "DESIGN.md §4 C04")
+
+claim("C07",
+      "Static analysis (level other): decides the schema clauses of the match line classes — output template vs. regular "
+      "expression vs. field_names field by field and literal by literal for every foldable class and per-version table, "
+      "formatter coverage, groups() arity, body-inferred return type of every class-typed interpreter in the codec tables, "
+      "kind preservation and coverage of the pre-1.0 -> 1.0.0 upgrade, parser-list reachability, version gates. "
+      "Value-level round trips (rounding, fraction bounding, key spellings) are not decided.",
+      _NOTE, "constant folding of class attributes/tables, regex syntax trees (re._parser) vs. str.format skeletons, "
+             "body-level return type inference, class-hierarchy-aware dispatch lifting", "DESIGN.md §3 F5b/F4f/F6, §4 C07")
+
+claim("C17",
+      "Static analysis (level other): decides order-independence plumbing of pitch spelling (sort / inverse-permutation "
+      "pairing on every returned array), id provenance of voice estimation, the importer's use of the three analyses "
+      "against their inferred return shapes and key sources, validator-subset-of-dispatcher for key-profile names, the "
+      "24-row KEYS table against MAJOR/MINOR_KEYS and chromatic order, and absence of int() on rank-1 arrays. The numeric "
+      "algorithms themselves (spelling, voice assignment, key correlation) are not decided.",
+      _NOTE, "ast rules: permutation pairing, return-shape inference vs. unpacking, dispatch lifting, constant-folded table "
+             "identities, rank domain", "DESIGN.md §4 C17")
